@@ -12,7 +12,7 @@ import os
 import subprocess
 from vfy.lemma import lemma, P
 import vfy.lemma as L
-from vfy.lemmas.common import S, cp_ok, all_ok
+from vfy.lemmas.common import S, cp_ok, all_ok, all_in
 
 ASSUMPTIONS = ['C11: Inv is observational (token lists + probe-document outputs), not a statement about internal variables',
                'Pygments highlight/lexers are third-party: the Pygments renderer is driven on probe documents without code blocks']
@@ -20,7 +20,7 @@ OUTSIDE = ['concurrent use', 'histories that leave a renderer context un-exited'
 
 # probe documents: together they are sensitive to every piece of global parser state
 PROBES = [
-    '# h\n',                                   # Heading.level/content/closing_sequence
+    '# h\n\n## ##\n\n# #\n\n### x ##\n',           # Heading.level/content/closing_sequence (incl. closing-sequence-only headings)
     '```py\nx\n```\n',                         # CodeFence._open_info
     '<!-- c\n-->\n\n<div>\nx\n',               # HtmlBlock._end_cond
     'para\n===\n',                             # Paragraph.parse_setext
@@ -299,3 +299,64 @@ def witness_parse_setext_leak():
     """(fixed) an exception inside Quote.read left Paragraph.parse_setext switched off"""
     fails = _after_fault('block', 4, 0)
     return fails, 'custom block token raising on its 4th start() (inside a quote): Inv %s afterwards' % ('violated' if fails else 'holds')
+
+
+# ------------------------------------------------------------------------------------------ G1b
+
+SCRATCH_READERS = ['Heading', 'CodeFence', 'HtmlBlock']
+HTML_ALPH = '!-?[/> padC'          # HtmlBlock.start runs several regexes and casefold(): finite alphabet of the characters its rules look at
+
+
+def no_nl(k, *cps):
+    for c in cps[:k]:
+        if c == 10:
+            return False
+    return True
+
+
+def _freeze(x):
+    if isinstance(x, (list, tuple)):
+        return tuple(_freeze(e) for e in x)
+    return x
+
+
+@lemma('G1b.reader-scratch', 'C11', quick=[{'reader': r, 'k': k} for r in SCRATCH_READERS for k in (1, 2, 3)],
+       thorough=[{'reader': r, 'k': k} for r in SCRATCH_READERS for k in (1, 2, 3, 4)], timeout=600, per_path=60,
+       covers=['block_token.py:Heading.start', 'block_token.py:Heading.read', 'block_token.py:CodeFence.start', 'block_token.py:CodeFence.read',
+               'block_token.py:HtmlBlock.start', 'block_token.py:HtmlBlock.read'],
+       note="for every reader that keeps class-level scratch state: a symbolic first line (a fixed prefix that makes the reader's start() plausible + k symbolic code points over Σ) read once from an ARBITRARY symbolic scratch state and once from the fresh state gives the same start() verdict, read() result and cursor")
+def g1b_reader_scratch(c1: int, c2: int, c3: int, c4: int, level: int, s1: int, s2: int, oi0: int, endnone: bool) -> bool:
+    """
+    pre: (all_in(HTML_ALPH, P('k'), c1, c2, c3, c4) if P('reader') == 'HtmlBlock' else all_ok(cp_ok, P('k'), c1, c2, c3, c4)) and no_nl(P('k'), c1, c2, c3, c4)
+    pre: cp_ok(s1) and cp_ok(s2)
+    post: _
+    """
+    from mistletoe import block_token as bt, block_tokenizer as btk
+    name = P('reader')
+    T = getattr(bt, name)
+    prefix = {'Heading': '#', 'CodeFence': '```', 'HtmlBlock': '<'}[name]
+    line = prefix + S(P('k'), c1, c2, c3, c4) + '\n'
+    rest = ['x\n', '```\n', '-->\n', '\n', 'y\n']
+
+    def run():
+        fw = btk.FileWrapper([line] + rest)
+        ok = T.start(line)
+        if not ok:
+            return (False, None, fw._index)
+        return (ok if isinstance(ok, bool) else int(ok) if isinstance(ok, int) else True, _freeze(T.read(fw)), fw._index)
+    fresh = {'level': 0, 'content': '', 'closing_sequence': getattr(bt.Heading, 'closing_sequence', ''),
+             '_open_info': None, '_end_cond': None}
+    bt.Heading.level, bt.Heading.content, bt.Heading.closing_sequence = level, chr(s1) + chr(s2), chr(s2)
+    bt.CodeFence._open_info = (oi0, chr(s1) * 3, chr(s2), chr(s1))
+    bt.HtmlBlock._end_cond = None if endnone else chr(s1) + chr(s2)
+    try:
+        a = run()
+    finally:
+        bt.Heading.level, bt.Heading.content, bt.Heading.closing_sequence = fresh['level'], fresh['content'], fresh['closing_sequence']
+        bt.CodeFence._open_info = fresh['_open_info']
+        bt.HtmlBlock._end_cond = fresh['_end_cond']
+    b = run()
+    bt.Heading.level, bt.Heading.content = 0, ''
+    bt.CodeFence._open_info = None
+    bt.HtmlBlock._end_cond = None
+    return a == b
